@@ -9,7 +9,9 @@ import Rcgen.Model.Cert
 -/
 namespace Rcgen.Model
 
-inductive KeyType | ed25519 | p256 | p384 | p521 | rsa
+/-- `rsa`: a modulus both back ends sign with (2048..=4096 bits); `rsaBig`: one above ring's
+    4096-bit limit for private keys and within aws-lc-rs' 8192 -/
+inductive KeyType | ed25519 | p256 | p384 | p521 | rsa | rsaBig
   deriving DecidableEq, Repr
 
 inductive DocFormat | pkcs8v1 | pkcs8v2 | sec1 | pkcs1
@@ -39,6 +41,7 @@ def KeyDoc.exists (d : KeyDoc) : Bool :=
   | .sec1, .p256 | .sec1, .p384 | .sec1, .p521 => true
   | .sec1, _ => false
   | .pkcs1, .rsa => true
+  | .pkcs1, .rsaBig => true
   | .pkcs1, _ => false
   | .pkcs8v2, .ed25519 => true           -- RFC 8410 OneAsymmetricKey with the public key
   | .pkcs8v2, _ => false
@@ -62,8 +65,8 @@ def accepts (b : Backend) (p : Parser) (d : KeyDoc) : Bool :=
   | .ecAny c =>
     b == .aws && d.kty == c && (d.fmt == .pkcs8v1 || d.fmt == .sec1) &&
     (c == .p256 || c == .p384 || c == .p521)
-  | .rsaPkcs8 => d.kty == .rsa && d.fmt == .pkcs8v1
-  | .rsaDer => b == .aws && d.kty == .rsa && (d.fmt == .pkcs1 || d.fmt == .pkcs8v1)
+  | .rsaPkcs8 => (d.kty == .rsa || (b == .aws && d.kty == .rsaBig)) && d.fmt == .pkcs8v1
+  | .rsaDer => b == .aws && (d.kty == .rsa || d.kty == .rsaBig) && (d.fmt == .pkcs1 || d.fmt == .pkcs8v1)
 
 inductive LoadErr | couldNotParseKeyPair | keyRejected
   deriving DecidableEq, Repr
@@ -129,13 +132,18 @@ def SigAlg.keyType : SigAlg → KeyType
   | .ecdsaP256 => .p256 | .ecdsaP384 => .p384 | .ecdsaP521 => .p521
   | .ed25519 => .ed25519
 
+/-- does the algorithm constant go with keys of this type? (the RSA constants with RSA keys of
+    either size class) -/
+def SigAlg.fits (a : SigAlg) (k : KeyType) : Bool :=
+  a.keyType == k || (a.keyType == .rsa && k == .rsaBig)
+
 /-- the algorithm auto-detection assigns to a key type -/
 def KeyType.defaultAlg : KeyType → SigAlg
   | .ed25519 => .ed25519 | .p256 => .ecdsaP256 | .p384 => .ecdsaP384 | .p521 => .ecdsaP521
-  | .rsa => .rsaSha256
+  | .rsa | .rsaBig => .rsaSha256
 
 /-- can this back end hold this key type at all? -/
-def supports (b : Backend) (k : KeyType) : Bool := b == .aws || k != .p521
+def supports (b : Backend) (k : KeyType) : Bool := b == .aws || (k != .p521 && k != .rsaBig)
 
 /-- what `generate_for` / rcgen's own export produce: the format of `serialize_der` -/
 def exportFormat (b : Backend) (k : KeyType) : DocFormat :=
